@@ -62,9 +62,29 @@ NEEDS = {
  "C18-c": ("stateful_eval no longer wraps an existing LayeredMapping", "backtick column used in >= 2 Python factors of one build incl. a stateful one, then spec reuse"),
  "C19-c": ("with_layers splices the parent's layers instead of nesting the parent", "unnamed parent without private writes, mutated after a child was derived"),
  "C20-c": ("same as C20-a (stale symbol cache)", "same variable more than once in wrt"),
+ "C01-d": ("%in% given a higher precedence than ':'", "'%in%' next to ':' or '*' without parentheses"),
+ "C02-d": ("numpy output preallocated with the first column's dtype", "output='numpy' + no intercept + integer first column followed by non-integer columns"),
+ "C03-d": ("spanned-terms subtraction skipped for singleton spans under ordering 'none'", "_ordering='none' + a term whose span is covered by a single earlier term"),
+ "C04-d": ("stateful-call rewriter does not descend into a stateful call's arguments", "nested stateful transforms, e.g. poly(center(x), 2), replayed on data other than the training data"),
+ "C05-d": ("same as C02-d (written independently)", "output='numpy' + integer first column"),
+ "C06-d": ("null rows already listed by the caller are not counted under the raise policy", "na_action='raise' + caller drop set covering every null row"),
+ "C07-d": ("`drop_rows or set()` replaces the caller's (empty) set", "caller passes an empty set and rows are dropped"),
+ "C08-d": ("narwhals kind inference whitelists String/Categorical/Enum", "narwhals materializer + object column not sniffed as text: >= 100 leading nulls, bytes, mixed"),
+ "C09-d": ("pooled encoder state filtered by `expr in formula`", "reuse with a factor whose kind flipped, in a formula where the membership test misses it"),
+ "C10-d": ("_enforce_structure no longer re-orders generated columns into the recorded order", "spec reuse + mapping-valued factor presenting its sub-columns in another order"),
+ "C11-d": ("forward scaled Helmert divisor off by one", "contr.helmert(scale=True, reverse=False)"),
+ "C12-d": ("zero-width knot interval skipped in the B-spline recursion", "repeated interior knots"),
+ "C13-d": ("exp10 computed as numpy.power(10, x)", "integer-dtype column with negative values or values >= 19"),
+ "C14-d": ("bracket mismatch only checked against the top of the stack", "interleaved brackets such as '(a[b)]'"),
+ "C15-d": ("sanitize_variable_names fast path skips the strip", "brace-quoted fragment with inner padding: '{ a+b }'"),
+ "C16-d": ("div_term accepts a constant divided by a column", "constraint like '1 / a = 2'"),
+ "C17-d": ("keyword arguments skipped when extracting variables", "column referenced only through a keyword argument: f(x, w=z)"),
+ "C18-d": ("Factor.kind resolved in place on the shared Formula object", "a Formula object reused across builds (any build mutates it; visible when a column changes kind)"),
+ "C19-d": ("_flatten stops at nested tuples", "Structured with a tuple inside a tuple"),
+ "C20-d": ("ModelSpec.differentiate re-derives from the original formula per variable", "ModelSpec/ModelSpecs.differentiate with >= 2 variables"),
 }
 res = {}
-for f in ["seeded/selftest_round_a.json", "seeded/selftest_round_b_before_strengthening.json", "seeded/selftest_round_c_before_strengthening.json"]:
+for f in ["seeded/selftest_round_a.json", "seeded/selftest_round_b_before_strengthening.json", "seeded/selftest_round_c_before_strengthening.json", "seeded/selftest_round_d_before_strengthening.json"]:
     if os.path.exists(f):
         for k, v in json.load(open(f))["seeds"].items():
             res.setdefault(k, {})["first"] = v
